@@ -217,7 +217,10 @@ Qed.
    accumulator records an early return - a `continue` only ends the iteration -, the database
    result and the mechanisms are explicit parameters), compute what the model computes: a polling tick of the model is the query
    followed by the translated function - same calls in the same order with the same fields,
-   same returned error class - for every configuration, every row list and all answers. *)
+   same returned error class - for every configuration, every row list and all answers.  The
+   last conjunct is the shape of eonPubKeyHandler.loop as read on this run (ticker, poll, error
+   branch that does not skip the wait): with stopOnErrors = false a failed polling run is
+   followed by the next poll like a successful one, so the loop is a sequence of ticks. *)
 From Verif Require Import Generated.EonPKLoop Proofs.EonPKLoop.
 Theorem C20_translated_loop_agrees :
   (forall h rows answers,
@@ -235,13 +238,15 @@ Theorem C20_translated_loop_agrees :
       let '(cs, ans', e) := handle_row h j answers in ((cs0 ++ cs, ans'), flow_of_err e)) /\
   (forall h pk st, gen_broadcast_eon_public_key h pk st = gen_env_call (CBroadcast (h_instance h) pk) st) /\
   (forall self ks, snd (gen_get_keyper_index self ks) = is_member self ks) /\
-  (forall x, gen_int64_to_uint64_safe x = safe_cast x /\ gen_int32_to_uint64_safe x = safe_cast x).
+  (forall x, gen_int64_to_uint64_safe x = safe_cast x /\ gen_int32_to_uint64_safe x = safe_cast x) /\
+  (forall failed, gen_loop_polls_again_after failed false = true).
 Proof.
   split; [exact gen_query_and_handle_rows|]. split; [exact gen_query_and_handle_fails|].
   split; [exact step_tick_is_translated|]. split; [exact step_tick_fails_is_translated|].
   split; [exact gen_loop_body_agrees|]. split; [exact gen_broadcast_agrees|].
   split; [exact gen_get_keyper_index_agrees|].
-  exact (fun x => conj (gen_int64_cast_agrees x) (gen_int32_cast_agrees x)).
+  split; [exact (fun x => conj (gen_int64_cast_agrees x) (gen_int32_cast_agrees x))|].
+  exact gen_loop_keeps_polling.
 Qed.
 Print Assumptions C20_translated_loop_agrees.
 
